@@ -162,6 +162,7 @@ def run(tier="quick", seed=0, jobs=16):
     from props import C11 as c11
 
     c11.annotation_table(rep)  # declared type of every aggregate = GEP-4 table (36 obligations)
+    c11.array_rules(rep)  # AR-T: declared element type of the array rules = what they return (a supplied column is converted by it)
     bad, n_eval, n_dist = bounded(rep, tier, seed)
     for b in gbad[:3]:
         rep.violation(f"guard:{b[:80]}", b, {"what": b}, True)
